@@ -78,3 +78,34 @@ package streampool
 //@   ensures [record_removed] !(streamId in s.streams)
 //@   loop 0:
 //@     invariant -1 <= rangeindex && rangeindex < len(st.tags)
+
+// a stream whose write fails is closed (and thereby removed from the pool's indexes); the dial workers
+// take one task at a time
+//@ ghost sendFailed Bool stable
+//@ ghost closeRequested Bool stable
+//@ ghost batchDrains Int stable
+//@ func (*github.com/cheggaaa/mb/v3.MB[T]).WaitOne
+//@   modifies nothing
+//@ func (*github.com/cheggaaa/mb/v3.MB[T]).Wait
+//@   modifies nothing
+//@   sets batchDrains = batchDrains + 1
+//@ func iface drpc.Stream.MsgSend
+//@   modifies nothing
+//@   sets sendFailed = result != nil
+//@ func (*stream).streamClose
+//@   trusted
+//@   modifies nothing
+//@   sets closeRequested = true
+//@ func (*stream).writeLoop
+//@   requires sr != nil
+//@   assumes sr.queue != nil && sr.stream != nil
+//@   requires !sendFailed && !closeRequested
+//@   ensures [failed_write_closes_stream] sendFailed ==> closeRequested
+//@   loop 0:
+//@     invariant !sendFailed
+//@ func (*ExecPool).sendLoop
+//@   requires ss != nil
+//@   assumes ss.batch != nil
+//@   ensures [one_task_at_a_time] batchDrains == old(batchDrains)
+//@   loop 0:
+//@     invariant batchDrains == old(batchDrains)
